@@ -198,11 +198,15 @@ func (i *Interpreter) QueryContext(ctx context.Context, query string, args ...in
 
 	go func() {
 		defer close(next)
+		defer verifSolEvent(&sols, "g_exit")
 		if !<-more {
 			return
 		}
+		verifSolEvent(&sols, "g_run")
 		if _, err := engine.Call(&i.VM, t, func(env *engine.Env) *engine.Promise {
+			verifSolEvent(&sols, "g_answer")
 			next <- env
+			verifSolEvent(&sols, "g_handed")
 			return engine.Bool(!<-more)
 		}, env).Force(ctx); err != nil {
 			sols.err = err
